@@ -10,7 +10,11 @@ def run (j : Json) : Except String Json := do
   let mlogJ := mlog.map evToJson
   let logAgree := (Json.arr mlogJ.toArray).compress == (Json.arr c.implLog.toArray).compress
   let agree := resEq mres c.implRes && logAgree
-  return Json.mkObj [("agree", agree), ("holds", agree),
+  -- the composition law re-evaluated on the implementation itself (harness: compose())
+  let composeOK := (j.getObjValAs? Bool "impl_compose_ok").toOption.getD true
+  return Json.mkObj [("agree", agree), ("holds", agree && composeOK),
+    ("why", if !composeOK then "the spec's output differs from composing the outputs of its sub-specs"
+            else if !agree then "result or call order differs from the compositional model" else ""),
     ("model", Json.mkObj [("res", resToJson mres), ("log", Json.arr mlogJ.toArray)]),
     ("branch", match mres with | .ok _ => "ok" | .error e => s!"err-{e}")]
 
